@@ -15,7 +15,22 @@ def run(tier, seed, replay=None):
     finally:
         import shutil
         shutil.rmtree(sd, ignore_errors=True)
-    expectations = [{"src": p["src"], "field": "trace", "want": p["want"],
+    # what is read out of a container is a value: it does not change when the container does
+    detached = [
+        ("a = make([]int64, 1); b = a[0]; a[0] = 9; b", "i:0", "a number read from a typed slice into a variable is a copy"),
+        ("a = make([]int64, 1); var b = a[0]; a[0] = 9; b", "i:0", "var binds a copy of a typed slice element"),
+        ("a = make([]string, 1); a[0] = \"x\"; b = a[0]; a[0] = \"y\"; b", "s:78", "a string read from a typed slice is a copy"),
+        ("s = make(struct { A int64 }); b = s.A; s.A = 5; b", "i:0", "a number read from a struct field is a copy"),
+        ("a = [1, 2]; a[0], a[1] = a[1], a[0]; a", "[i:2,i:1]", "a multiple assignment reads all its right-hand sides before it stores: elements swap"),
+        ("a = make([]int64, 2); a[1] = 2; a[0] = 1; a[0], a[1] = a[1], a[0]; [a[0], a[1]]", "[i:2,i:1]", "typed elements swap"),
+        ("m = {\"x\": 1, \"y\": 2}; m.x, m.y = m.y, m.x; [m.x, m.y]", "[i:2,i:1]", "map entries swap"),
+        ("a = make([]int64, 1); func f(x) { a[0] = 7; return x }; f(a[0])", "i:0", "an argument read from a typed slice element is passed by value"),
+        ("a = make([]int64, 1); func f(x, y, z, u, v) { a[0] = 7; return x }; f(a[0], 1, 2, 3, 4)", "i:0", "an argument read from a typed slice element is passed by value (5 parameters)"),
+        ("a = make([]int64, 2); r = []; for x in a { a[0] = 5; a[1] = 6; r += x }; r", "[i:0,i:6]", "the loop variable of a for-in over a typed slice holds the element's value at its iteration"),
+        ("a = [1]; b = a[0]; a[0] = 9; [b, a[0]]", "[i:1,i:9]", "an element read from a list is a copy"),
+    ]
+    expectations = [{"src": src, "field": "result", "want": want, "why": why} for src, want, why in detached]
+    expectations += [{"src": p["src"], "field": "trace", "want": p["want"],
                      "why": "the observations of a container history equal those of the same operations on Go values"} for p in data["untyped"]]
 
     def model_obs(x):
